@@ -438,11 +438,13 @@ TrBegin ==
 
 (* capacity probe (C05, C14): every handle was dropped and the store
    collected; filling the manager with one-node operations until the first
-   allocation failure must reach the same node count as on the fresh manager *)
+   allocation failure must reach at least the node count of the fresh manager *)
 TrProbe ==
   /\ Ev("probe")
-  /\ Step(<< O("C05", "probe.capacity", Rec[l].filled = Rec[l].fresh),
-             O("C14", "probe.capacity", Rec[l].filled = Rec[l].fresh) >>)
+  \* (>=: for ZBDDs the fill operations create several nodes at once, so the first failure
+  \* may come a few slots earlier or later; a leak makes the second fill stop EARLIER)
+  /\ Step(<< O("C05", "probe.capacity", Rec[l].filled >= Rec[l].fresh),
+             O("C14", "probe.capacity", Rec[l].filled >= Rec[l].fresh) >>)
   /\ UNCHANGED <<kind, n, l2v, hs, gcN, roN, aux>>
 
 (* DDDMP export of live handles: a read-only traversal; the handles must be
